@@ -24,7 +24,7 @@ CLAIMED = {
 }
 
 # properties whose checks have been integrated and validated on the clean tree
-INTEGRATED = ['C01', 'C15']
+INTEGRATED = ['C01', 'C15', 'C16']
 
 PENDING_REASON = 'check not built yet at this commit (planned in DESIGN.md §5; no other technique is substituted)'
 
